@@ -29,9 +29,10 @@
                                them identically, and keeps timezone, warnings, disqualifications
      profile                   the constructor that made the model: DailyModel(model="current"),
                                DailyModel(model="legacy"), BillingModel()                                      *)
-From Coq Require Import Reals Lra ZArith List Bool String PrimFloat.
+From Coq Require Import Reals Lra ZArith List Bool String PrimFloat Permutation.
 From V Require Import Model.Num Model.NumR Model.NumF Model.DailyCurve Model.Json Model.DocSchema Model.DailyDoc
-                      Generated.C01Gen Proofs.DailyCurveProofs Proofs.DailyDocProofs Proofs.DailyClosedFormProofs.
+                      Generated.C01Gen Proofs.DailyCurveProofs Proofs.DailyDocProofs Proofs.DailyClosedFormProofs
+                      Proofs.DailyKeyOrderProofs.
 Import ListNotations.
 Open Scope string_scope.
 
@@ -198,6 +199,94 @@ Example C01_lock_examples :
   accepts cur (JObj [("season", JObj [("january", JStr "hot")])]) = false /\
   accepts cur (JObj [("split_selection", JObj [("penalty_power", JNum 3%float)])]) = false.
 Proof. repeat split; vm_compute; reflexivity. Qed.
+
+(* the cross-field validators are part of [accepts] (each line is replayed on the real classes by the docs stream) *)
+Example C01_cross_field_examples :
+  let dev := ("developer_mode", JBool true) in
+  accepts cur (JObj [dev; ("alpha_final", JNull)]) = false /\
+  accepts cur (JObj [dev; ("alpha_final", JNull); ("alpha_final_type", JNull); ("final_bounds_scalar", JNull)]) = true /\
+  accepts cur (JObj [dev; ("alpha_final", JNum 3%float)]) = false /\
+  accepts cur (JObj [dev; ("alpha_final", JNum 1.5%float)]) = true /\
+  accepts cur (JObj [dev; ("final_bounds_scalar", JNum 0%float)]) = false /\
+  accepts cur (JObj [dev; ("initial_step_percentage", JNum 0.75%float)]) = false /\
+  accepts cur (JObj [dev; ("initial_step_percentage", JNull)]) = false /\
+  accepts cur (JObj [dev; ("initial_step_percentage", JNull); ("algorithm_choice", JStr "scipy_slsqp")]) = true /\
+  accepts cur (JObj [dev; ("split_selection", JObj [("reduce_splits_num_std", JArr [JNum 1%float])])]) = false /\
+  accepts cur (JObj [dev; ("split_selection", JObj [("reduce_splits_num_std", JArr [JNum 1%float; JNum (-1)%float])])]) = false.
+Proof. cbv zeta. repeat split; vm_compute; reflexivity. Qed.
+
+(* ------------------------------------------------------------------ key order of the stored document *)
+
+(* A stored document is an unordered JSON object.  [reads_like d d']: d' holds the same settings tree and the same info
+   entries as d, and the same sub-models up to the ORDER OF KEYS at every level of the parameter part -- the top-level
+   object, "info", the "submodels" mapping, each sub-model entry, its "coefficients" and its "temperature_constraints".
+   Then from_dict reads d' whenever it reads d, and the two objects are the same model: every sub-model by its key,
+   hence every prediction at every temperature, the settings (hence the day routing), timezone, warnings,
+   disqualifications.  (The reader looks every value up BY NAME; a reader taking temperature_constraints by position
+   -- seeded change C11-6 -- does not satisfy this.) *)
+Print reads_like.
+Print same_submodels.
+Print same_submodel.
+Print same_fields.
+Print same_model.
+
+Theorem C01_daily_key_order_irrelevant : forall c d d' s, reads_like d d' -> from_doc' c d = Some s ->
+  exists s', from_doc' c d' = Some s' /\ same_model s s'.
+Proof. exact (from_doc_key_order cur leg). Qed.
+Print Assumptions C01_daily_key_order_irrelevant.
+
+(* what makes a re-ordering harmless: a lookup by name does not see the order of the entries (keys distinct) *)
+Theorem C01_lookup_ignores_key_order : forall k (o o' : list (string * json)),
+  NoDup (map fst o) -> Permutation o o' -> get k o' = get k o.
+Proof. exact get_perm. Qed.
+Print Assumptions C01_lookup_ignores_key_order.
+
+Theorem C01_coefficients_ignore_key_order : forall o o', NoDup (map fst o) -> Permutation o o' ->
+  parse_coeffs (JObj o') = parse_coeffs (JObj o) /\ parse_tc (JObj o') = parse_tc (JObj o).
+Proof.
+  intros o o' Hnd Hp. pose proof (perm_same_fields o o' Hnd Hp) as H.
+  split; [apply parse_coeffs_order | apply parse_tc_order]; exact H.
+Qed.
+Print Assumptions C01_coefficients_ignore_key_order.
+
+(* any permutation of the top-level keys gives a document that reads like the original *)
+Theorem C01_top_level_order_reads_like : forall o o' l, nodupb (map fst o) = true -> Permutation o o' ->
+  get "submodels" o = Some (JObj l) -> nodupb (map fst l) = true -> reads_like (JObj o) (JObj o').
+Proof. exact top_level_reads_like. Qed.
+Print Assumptions C01_top_level_order_reads_like.
+
+(* non-vacuity: the weekday/weekend witness with every mapping of its parameter part reversed *)
+Definition rev_obj (j : json) : json := match j with JObj o => JObj (rev o) | _ => j end.
+Definition reorder_sub (j : json) : json :=
+  match j with
+  | JObj o => JObj (rev (map (fun kv => (fst kv, if String.eqb (fst kv) "f_unc" then snd kv else rev_obj (snd kv))) o))
+  | _ => j
+  end.
+Definition reorder_doc (d : json) : json :=
+  match d with
+  | JObj o => JObj (rev (map (fun kv =>
+      (fst kv, if String.eqb (fst kv) "submodels"
+               then match snd kv with JObj l => JObj (rev (map (fun e => (fst e, reorder_sub (snd e))) l)) | v => v end
+               else if String.eqb (fst kv) "info" then rev_obj (snd kv) else snd kv)) o))
+  | _ => d
+  end.
+
+Example C01_key_order_nonvacuous :
+  (* the hypothesis is satisfiable by a genuine re-ordering *)
+  reads_like (to_doc Daily wdwe_witness) (rev_obj (to_doc Daily wdwe_witness)) /\
+  (* and on the fully re-ordered document (all six levels) the reader as coded gives the same model *)
+  reorder_doc (to_doc Daily wdwe_witness) <> to_doc Daily wdwe_witness /\
+  exists s', from_doc' Daily (reorder_doc (to_doc Daily wdwe_witness)) = Some s' /\
+             predict_sub s' "we-su_sh_wi" 40%float = predict_sub wdwe_witness "we-su_sh_wi" 40%float /\
+             predict_sub s' "wd-su_sh_wi" 95%float = predict_sub wdwe_witness "wd-su_sh_wi" 95%float /\
+             ds_settings s' = ds_settings wdwe_witness /\ ds_tz s' = ds_tz wdwe_witness /\ ds_dq s' = ds_dq wdwe_witness.
+Proof.
+  split.
+  - unfold to_doc, rev_obj. eapply top_level_reads_like; [vm_compute; reflexivity | apply Permutation_rev | reflexivity | vm_compute; reflexivity].
+  - split.
+    + intros H. apply (f_equal (fun j => match j with JObj ((k, _) :: _) => k | _ => "" end)) in H. vm_compute in H. discriminate H.
+    + eexists. split; [vm_compute; reflexivity|]. repeat split; vm_compute; reflexivity.
+Qed.
 
 (* ------------------------------------------------------------------ closed form (real-number semantics) *)
 
